@@ -1,10 +1,10 @@
 SPECIFICATION MCSpec
 CONSTANTS
   C = 2
-  MaxParts = 3
-  Amts = {1, 3, 4, 5}
-  Tots = {3, 4, 5}
-  Secs = {"ok", "flip", "other"}
+  MaxParts = 2
+  Amts = {2, 4}
+  Tots = {4}
+  Secs = {"ok"}
   Cls = {"far"}
   RegAmt = 4
   RegMin = 0
@@ -12,10 +12,10 @@ CONSTANTS
   MPPT = 1
   MaxTicks = 1
   MaxBlocks = 0
-  MaxDev = 1
-  MaxOps = 6
+  MaxDev = 0
+  MaxOps = 4
   StaleClaim = FALSE
-  Flds = {"none"}
+  Flds = {"none", "mnone", "mflip"}
   Sks = {"no"}
   Ups = {FALSE}
   RegMeta = 0
